@@ -25,9 +25,10 @@ INV = ["PropertyHolds", "JoinInv", "TasksSetExact", "QuiescentNotStuck", "Residu
 
 
 def consts(nt, maxops, maxenv, ops, *, depth=3, shields="{0}", cleanups="{0}", pres="{0}",
-           env='{"cancel", "native"}'):
+           env='{"cancel", "native"}', orders="{FALSE}"):
     return {"NT": str(nt), "INF": "99", "Ops": ops, "MaxOps": str(maxops), "MaxEnv": str(maxenv),
-            "EnvKinds": env, "MaxDepth": str(depth), "Shields": shields, "Cleanups": cleanups, "Pres": pres}
+            "EnvKinds": env, "MaxDepth": str(depth), "Shields": shields, "Cleanups": cleanups, "Pres": pres,
+            "Orders": orders}
 
 
 def cmp(model: dict, real: dict) -> list[str]:
